@@ -456,6 +456,28 @@ func TestCheck(t *testing.T) {
 				}
 			}
 		}
+		// siblings whose names differ by case only: two directories, two files - every call that names one
+		// of them, or moves one below the other, acts on that one under both emulations
+		{
+			pre := []fsx.Op{{K: "Mkdir", P: "/w/A", Perm: 0o755}, {K: "Mkdir", P: "/w/a", Perm: 0o755}, {K: "WriteFile", P: "/w/A/f", Data: "UPPER", Perm: 0o644}, {K: "WriteFile", P: "/w/a/f", Data: "lower", Perm: 0o644},
+				{K: "WriteFile", P: "/w/a/F", Data: "lowerF", Perm: 0o644}, {K: "Mkdir", P: "/w/a/B", Perm: 0o755}}
+			calls := []fsx.Op{{K: "Rename", P: "/w/A", P2: "/w/a/m"}, {K: "Rename", P: "/w/a", P2: "/w/A/m"}, {K: "Rename", P: "/w/A/f", P2: "/w/a/f"}, {K: "Rename", P: "/w/a/f", P2: "/w/a/F"},
+				{K: "Rename", P: "/w/a/B", P2: "/w/a/b"}, {K: "Rename", P: "/w/A", P2: "/w/a"}, {K: "Rename", P: "/w/a/B", P2: "/w/a/b/c"}, {K: "Link", P: "/w/A/f", P2: "/w/a/g"}, {K: "Link", P: "/w/a/f", P2: "/w/a/F"},
+				{K: "Remove", P: "/w/A/f"}, {K: "RemoveAll", P: "/w/A"}, {K: "RemoveAll", P: "/w/a"}, {K: "Mkdir", P: "/w/a/b", Perm: 0o755}, {K: "MkdirAll", P: "/w/A/B/c", Perm: 0o755}, {K: "ReadDir", P: "/w"}, {K: "ReadDir", P: "/w/a"},
+				{K: "ReadFile", P: "/w/A/f"}, {K: "ReadFile", P: "/w/a/F"}, {K: "Stat", P: "/w/A/F"}, {K: "WriteFile", P: "/w/A/F", Data: "new", Perm: 0o644}, {K: "Glob", P: "/w/[aA]/*"}, {K: "Glob", P: "/w/A/*"}, {K: "WalkDir", P: "/w"},
+				{K: "Chdir", P: "/w/A"}, {K: "Truncate", P: "/w/a/F", Size: 1}}
+			for _, call := range calls {
+				idx++
+				if idx%c.NShards != c.Shard {
+					continue
+				}
+				ops := append(append([]fsx.Op{}, pre...), call, fsx.Op{K: "Getwd"}, fsx.Op{K: "ReadDir", P: "/w/a"}, fsx.Op{K: "ReadDir", P: "/w/A"})
+				if dev := runHist(c, kind, ops); dev != nil {
+					c.Report(dev, Case{Kind: "hist", FS: kind, Ops: ops})
+				}
+				c.NonTrivial(vt.Hash64(kind, "case-siblings", call.String()))
+			}
+		}
 		c.Rapid("hist-"+kind, c.Pick(1500, 40000), func(t *rapid.T) *vt.Failure {
 			var ops []fsx.Op
 			// names that differ by case only are different names under both emulations (the emulated tree
